@@ -63,7 +63,10 @@ def _dep(ck, prog):
     ck.ob("DEP", SEQ_PATH + ":Sequence.sequence_charge_decoration", nf["reads"] == ["cp"], expected=["cp"], found=nf["reads"], slot="reads", where=g.loc())
     for m, allowed in want.items():
         s = E.of(SEQ, "Sequence." + m)
-        reads = {r for r in s.self_reads if r not in methods}
+        from lcsa import sym as _sym
+        # (a field that MEMO-KEY showed to be a complete result cache of the receiver is not an input)
+        caches = {t.split("__")[-1] for t in _sym.MEMO_OK_SLOTS | _sym.MEMO_OK_TABLES}
+        reads = {r for r in s.self_reads if r not in methods and r.split("__")[-1] not in caches}
         ck.ob("DEP", SEQ_PATH + ":Sequence." + m, reads <= allowed, expected=sorted(allowed), found=sorted(reads), slot="reads",
               note="the parameter may see the residues only through the charge pattern"
                    + (" (kappa reaches self.seq only inside deltaMax, where C03 shows it feeds the permutant, never the value)" if m == "kappa" else ""))
